@@ -32,6 +32,17 @@ META["C02"] = dict(
     abstracted=[".astype(...) is the identity", "type annotations", "docstrings"],
 )
 
+META["C18"] = dict(
+    level="other",
+    technique="contract-based deductive verification of progress.py (class invariant 0<=_i<=_total, notification range) by VC generation from the real AST + z3; ghost step accounting of entry points; option cross product as labelled bounded stand-in",
+    level_text="Proved for all states: every Progress method preserves 0<=_i<=_total and the global _RECENT_PROGRESS invariant, increment/set raise only when the step passes the total, and every notification forwarded to callbacks has 0<=progress<=1 and a message keyword. Completion of every option combination is a total-correctness claim through numpy/scipy and is only explored (bounded) over the option cross product.",
+    level_note="real arithmetic for progress fractions; set_message modelled in the only form the library uses (message[, force]); run-to-completion of the numerical entry points is bounded, never proved",
+    explanation="Proof part: obligations from progress.py (_update_every_N_percent, Progress.{increment,set,set_message,__enter__,__exit__}, register). Bounded part: option cross product per entry point with a recording progress callback.",
+    trusted_base=["callbacks are opaque; _update forwards its keyword arguments unchanged"],
+    assumptions=COMMON_ASSUME,
+    abstracted=["message strings", "print-based default handler"],
+)
+
 NOT_BUILT = "check not built yet in this session (planned, see DESIGN.md section 3)"
 NOT_APPLICABLE = {
     "C10": "statistical calibration over an RNG distribution and heuristic optimisers: no pre/postcondition within reach of a deductive verifier implies it (DESIGN.md C10); sampling would be a different technique family",
